@@ -1,6 +1,7 @@
 #!/usr/bin/env python3
-"""re-evaluate every kept seeded change against the current checks (fresh scratch worktree of /repo's HEAD, removed
-afterwards), refresh caught_by in each meta.json and write seeded/INDEX.md"""
+"""re-evaluate every kept seeded change against the current checks, refresh caught_by in each meta.json and write
+seeded/INDEX.md.  Detection is computed in memory (selftest/patchapply.py + run_check, 16 processes); with --demos the
+demonstrations are re-run as well, in a scratch worktree of /repo's HEAD that is removed afterwards."""
 import json
 import os
 import re
@@ -12,40 +13,73 @@ HERE = os.path.dirname(os.path.dirname(os.path.abspath(__file__)))
 SEEDED = os.path.join(HERE, 'seeded')
 
 
+sys.path.insert(0, HERE)
+
+
+def _detect(args):
+    d, patch = args
+    from selftest.patchapply import apply_patch
+    from sa.main import run_check
+    from sa.model import REPO
+    ov = apply_patch(open(patch).read(), lambda rel: open(os.path.join(REPO, rel)).read())
+    if ov is None:
+        return d, None
+    caught = {}
+    props = sorted(f[:-3] for f in os.listdir(os.path.join(HERE, 'sa', 'props')) if f.startswith('C') and f.endswith('.py'))
+    devnull = open(os.devnull, 'w')
+    for p in props:
+        old = sys.stdout
+        sys.stdout = devnull
+        try:
+            code, R = run_check(p, 'quick', overrides={k: v for k, v in ov.items() if k.endswith('.py')}, quiet=True, write=False)
+        finally:
+            sys.stdout = old
+        if code != 0:
+            caught[p] = {'exit': code, 'rules': sorted({'%s@%s' % (o.rule, o.construct) for o in R.violations}) or ['ANALYSIS-ERROR']}
+    return d, caught
+
+
 def main():
-    wt = tempfile.mkdtemp(prefix='seedeval_')
-    os.rmdir(wt)
-    subprocess.run(['git', '-C', '/repo', 'worktree', 'add', '-q', '--detach', wt, 'HEAD'], check=True)
+    from concurrent.futures import ProcessPoolExecutor
+    dirs = [d for d in sorted(os.listdir(SEEDED)) if os.path.exists(os.path.join(SEEDED, d, 'meta.json'))]
+    with ProcessPoolExecutor(max_workers=16) as ex:
+        det = dict(ex.map(_detect, [(d, os.path.join(SEEDED, d, 'patch.diff')) for d in dirs]))
+    demos = {}
+    if '--demos' in sys.argv:
+        wt = tempfile.mkdtemp(prefix='seedeval_')
+        os.rmdir(wt)
+        subprocess.run(['git', '-C', '/repo', 'worktree', 'add', '-q', '--detach', wt, 'HEAD'], check=True)
+        try:
+            for d in dirs:
+                sd = os.path.join(SEEDED, d)
+                env = dict(os.environ, PYTHONPATH=wt)
+                subprocess.run(['git', '-C', wt, 'checkout', '-q', '--', '.'])
+                c0 = subprocess.run(['/venv/bin/python', os.path.join(sd, 'demo.py')], cwd=wt, env=env, capture_output=True, timeout=240).returncode
+                subprocess.run(['git', '-C', wt, 'apply', os.path.join(sd, 'patch.diff')])
+                c1 = subprocess.run(['/venv/bin/python', os.path.join(sd, 'demo.py')], cwd=wt, env=env, capture_output=True, timeout=240).returncode
+                demos[d] = (c0, c1)
+                print(d, 'demo', c0, c1, flush=True)
+        finally:
+            subprocess.run(['git', '-C', '/repo', 'worktree', 'remove', '--force', wt])
     rows = []
-    try:
-        for d in sorted(os.listdir(SEEDED)):
-            sd = os.path.join(SEEDED, d)
-            if not os.path.isdir(sd) or not os.path.exists(os.path.join(sd, 'meta.json')):
-                continue
-            env = dict(os.environ, SKIP_SUITE='1')
-            out = subprocess.run([os.path.join(HERE, 'tools', 'eval_seed.sh'), sd, wt], capture_output=True, text=True, env=env).stdout
-            meta = json.load(open(os.path.join(sd, 'meta.json')))
-            m = re.search(r'demo: clean tree exit=(\d+), changed tree exit=(\d+)', out)
-            caught = {}
-            for l in out.splitlines():
-                mm = re.match(r'\s+(C\d+) exit=(\d)\s+(.*)', l)
-                if mm:
-                    caught[mm.group(1)] = {'exit': int(mm.group(2)), 'rules': [r for r in mm.group(3).split() if '@' in r]}
-            meta['caught_by'] = caught
-            meta['caught_by_claimed_property_check'] = meta['breaks_property'] in caught and caught[meta['breaks_property']]['exit'] == 1
-            if 'PATCH-DOES-NOT-APPLY' in out:
-                meta['note'] = 'patch no longer applies to /repo HEAD'
-            if m:
-                meta['demo_exit_unchanged_tree'], meta['demo_exit_changed_tree'] = int(m.group(1)), int(m.group(2))
-            json.dump(meta, open(os.path.join(sd, 'meta.json'), 'w'), indent=1)
-            rows.append(meta)
-            print(d, {k: v['rules'] for k, v in caught.items()} or 'NOT CAUGHT', flush=True)
-    finally:
-        subprocess.run(['git', '-C', '/repo', 'worktree', 'remove', '--force', wt])
+    for d in dirs:
+        sd = os.path.join(SEEDED, d)
+        meta = json.load(open(os.path.join(sd, 'meta.json')))
+        caught = det.get(d)
+        if caught is None:
+            meta['note'] = 'patch no longer applies to the current sources'
+            caught = meta.get('caught_by') or {}
+        meta['caught_by'] = caught
+        meta['caught_by_claimed_property_check'] = caught.get(meta['breaks_property'], {}).get('exit') == 1
+        if d in demos:
+            meta['demo_exit_unchanged_tree'], meta['demo_exit_changed_tree'] = demos[d]
+        json.dump(meta, open(os.path.join(sd, 'meta.json'), 'w'), indent=1)
+        rows.append(meta)
+        print(d, {k: v['rules'] for k, v in caught.items()} or 'NOT CAUGHT', flush=True)
     with open(os.path.join(SEEDED, 'INDEX.md'), 'w') as f:
         f.write('# Independently seeded changes\n\nEach directory holds `patch.diff` (apply with `git -C /repo apply`), `demo.py` '
                 '(passes on the unchanged tree, fails with the change), `notes.md` (the author\'s description) and `meta.json`.\n'
-                'Written by sub-agents that saw only the property text and a scratch worktree. Re-evaluated by `tools/seed_index.py`.\n\n')
+                'Written by sub-agents that saw only the property text and a scratch worktree (ids -1..-3: round 1; -4..-6: round 2, told to avoid the kinds of change of round 1). Re-evaluated by `tools/seed_index.py [--demos]`.\n\n')
         f.write('| id | breaks | caught by own check | all checks that report it (rule@construct) | missed at first / strengthened |\n|---|---|---|---|---|\n')
         for m in rows:
             cb = '; '.join('%s: %s' % (k, ', '.join(sorted(set(v['rules'])))) for k, v in sorted(m['caught_by'].items())) or '**not caught**'
@@ -53,8 +87,8 @@ def main():
                                                  cb, (m.get('strengthened') or '').replace('|', '/')))
         n = len(rows)
         own = sum(1 for m in rows if m['caught_by_claimed_property_check'])
-        anyc = sum(1 for m in rows if m['caught_by'])
-        first = sum(1 for m in rows if not m.get('missed_at_first') and m['caught_by'])
+        anyc = sum(1 for m in rows if any(v.get('exit') == 1 for v in m['caught_by'].values()))
+        first = sum(1 for m in rows if not m.get('missed_at_first') and any(v.get('exit') == 1 for v in m['caught_by'].values()))
         f.write('\n%d changes; %d reported by at least one check, %d by the check of the property they were written against; '
                 '%d were reported before any strengthening.\n' % (n, anyc, own, first))
     print('index written:', n, 'changes,', anyc, 'caught,', own, 'by own check')
